@@ -9,7 +9,7 @@ from collections import defaultdict
 
 class Body:
     __slots__ = ("id", "crate", "kind", "parent", "span", "argc", "locals", "blocks", "tys", "raw",
-                 "_succ", "_pred", "_defs", "world", "upvars", "is_async", "vis", "impl_trait", "coroutine", "x")
+                 "_succ", "_pred", "_defs", "_vt", "world", "upvars", "is_async", "vis", "impl_trait", "coroutine", "x")
 
     def __init__(self, raw, crate, tys, world):
         self.raw = raw
@@ -32,6 +32,7 @@ class Body:
         self._succ = None
         self._pred = None
         self._defs = None
+        self._vt = None
 
     # ------------------------------------------------------------ types
     def ty(self, idx):
@@ -148,11 +149,84 @@ class Body:
         return target not in self.reachable(0, removed_blocks=[dom])
 
     def dominated_by_edge(self, target, edge):
-        return target not in self.reachable(0, removed_edges=[edge])
+        return self.dominated_by_any(target, edges=[edge])
 
-    def dominated_by_any(self, target, blocks=(), edges=()):
-        """every path entry->target passes through one of the blocks or edges"""
-        return target not in self.reachable(0, removed_blocks=blocks, removed_edges=edges)
+    def dominated_by_any(self, target, blocks=(), edges=(), _depth=0):
+        """every path entry->target passes through one of the blocks or edges.  Feasible paths only, for one correlation the
+        code base uses all the time: a verdict carried in an enum local (`let v = if c { None } else { f() }; if let Some(x) = v { .. }`).
+        A path that takes the `Some` edge of the test got its value from a definition that can be `Some`; if every such
+        definition lies behind `edges`, so does the target."""
+        blocks, edges = list(blocks), list(edges)
+        if target not in self.reachable(0, removed_blocks=blocks, removed_edges=edges):
+            return True
+        if _depth >= 2:
+            return False
+        for (sbb, tgt, local, variant) in self._variant_tests():
+            if target in self.reachable(0, removed_blocks=blocks, removed_edges=edges + [(sbb, tgt)]):
+                continue
+            poss = []
+            for d in self.defs().get(local, []):
+                r = d[2].get("r") if d[1] != "term" else None
+                if r is not None and r["k"] == "agg" and r.get("variant") and r["variant"] != variant:
+                    continue
+                if r is not None and variant in (True, False) and r["k"] == "use" and op_const(r.get("o")) is not None and \
+                        op_const(r["o"]).get("v") in (0, 1) and bool(op_const(r["o"])["v"]) != variant:
+                    continue   # `let f = a && b` lowers to `f = if a { b } else { false }`: the true edge of a test of f never follows the `false`
+                poss.append(d[0])
+            if poss and sbb not in poss and all(self.dominated_by_any(x, blocks, edges, _depth + 1) for x in poss):
+                return True
+        return False
+
+    def _variant_tests(self):
+        """(switch block, target block, local, variant name) for every `switchInt(discriminant(local))` edge that names one variant"""
+        if getattr(self, "_vt", None) is None:
+            out = []
+            for bb in sorted(self.live_blocks()):
+                t = self.term(bb)
+                if t["k"] != "switch":
+                    continue
+                pl = t["d"].get("c") or t["d"].get("m")
+                if not isinstance(pl, dict) or pl.get("p"):
+                    continue
+                # a test of a boolean flag that has several definitions (one of them a constant)
+                fl = pl["l"]
+                fd = self.defs().get(fl, [])
+                if len(fd) == 1 and fd[0][1] != "term" and fd[0][2]["r"]["k"] == "use":
+                    o = fd[0][2]["r"]["o"]
+                    p2 = (o.get("m") or o.get("c")) if isinstance(o, dict) and "k" not in o else None
+                    if isinstance(p2, dict) and not p2.get("p"):
+                        fl = p2["l"]
+                        fd = self.defs().get(fl, [])
+                if len(fd) >= 2 and len(t["targets"]) == 1 and t["targets"][0][0] == 0 and \
+                        any(d[1] != "term" and d[2]["r"]["k"] == "use" and op_const(d[2]["r"].get("o")) is not None for d in fd):
+                    out.append((bb, t["else"], fl, True))
+                    out.append((bb, t["targets"][0][1], fl, False))
+                    continue
+                ds = [d for d in self.defs().get(pl["l"], []) if d[1] != "term" and d[2]["r"]["k"] == "discr"]
+                if len(ds) != 1 or len(self.defs().get(pl["l"], [])) != 1:
+                    continue
+                r = ds[0][2]["r"]
+                src = r["p"]
+                if src.get("p") or not r.get("adt"):
+                    continue
+                local = src["l"]
+                # `_t = move v; discriminant(_t)`: look through one whole-local move
+                d1 = self.defs().get(local, [])
+                if len(d1) == 1 and d1[0][1] != "term" and d1[0][2]["r"]["k"] == "use":
+                    o = d1[0][2]["r"]["o"]
+                    p2 = o.get("m") or o.get("c") if isinstance(o, dict) else None
+                    if isinstance(p2, dict) and not p2.get("p") and "k" not in o:
+                        local = p2["l"]
+                tg = {}
+                for v, b2 in t["targets"]:
+                    tg.setdefault(b2, []).append(v)
+                for b2, vs in tg.items():
+                    if len(vs) == 1 and b2 != t["else"]:
+                        name = self.world.variant_of_discr(r["adt"], vs[0]) if self.world is not None else None
+                        if name is not None:
+                            out.append((bb, b2, local, name))
+            self._vt = out
+        return self._vt
 
     # ------------------------------------------------------------ statements
     def stmts(self, bb):
@@ -491,7 +565,10 @@ def _shift_term(t, lo, bo):
 
 
 def _inline_new_helpers(w, known, max_rounds=3, max_blocks=400):
-    new = {i for i, b in w.bodies.items() if i not in known and b.kind in ("Fn", "AssocFn") and not b.coroutine and not b.is_async}
+    # freshly written helpers are inlined; implementations of std traits (a newly derived PartialEq / Clone / Default, an operator) are not:
+    # the rules read them as the calls they are (`state == from` is a test of `state` against a value)
+    new = {i for i, b in w.bodies.items() if i not in known and b.kind in ("Fn", "AssocFn") and not b.coroutine and not b.is_async
+           and not re.match(r"^<.* as (std|core)::", i)}
     if not new:
         return
     # callers per new helper (for closure re-parenting)
@@ -538,7 +615,7 @@ def _inline_new_helpers(w, known, max_rounds=3, max_blocks=400):
                         b.blocks.append(nb)
                     blk["term"] = {"k": "goto", "t": bo, "s": t.get("s", ""), "inlined": c.id}
                     w.inlined.setdefault(b.id, []).append(c.id)
-                    b._succ = b._pred = b._defs = None
+                    b._succ = b._pred = b._defs = b._vt = None
                     changed = True
                     # closures of a helper with a single caller now belong to that caller
                     if len(ncallers.get(c.id, ())) == 1:
@@ -665,7 +742,7 @@ def _sink_ref_writes(w):
                 del bl["st"][k]
                 w.sunk_writes += 1
                 defs = None
-                b._succ = b._pred = b._defs = None
+                b._succ = b._pred = b._defs = b._vt = None
     return w.sunk_writes
 
 
